@@ -565,7 +565,11 @@ func (x *explorer) judge(p path, hist []histPart, f *facts, cp *crashPoint, rec 
 				c.Violation("aborted-delivered-after-restart/"+fateNames[m.Fate]+"/"+variant, fmt.Sprintf("message %s was aborted (Abort had returned) before the crash at %s, yet recovery delivered it to %s", d.msg, cp, r), wit(nil))
 			}
 			// (4) not re-sent once a later attempt had begun
-			if why, ok := f.constraint[pr]; ok {
+			if why, ok := f.constraint[pr]; ok && sc.rewriteVictim(d.msg) {
+				// group G: what the queue owes when it could not write the narrower
+				// list into its own spool is not stated (NOTES.md); not judged
+				x.r.Count("io_error_rewrite_resend_not_judged", 1)
+			} else if ok {
 				c.Violation("resent-after-later-attempt-began/"+why+"/"+variant, fmt.Sprintf("%s had been %s and the queue had already begun a later attempt for %s before the crash at %s, yet recovery sends to it again", r, why, d.msg, cp), wit(nil))
 			}
 		}
@@ -640,6 +644,10 @@ func (x *explorer) judge(p path, hist []histPart, f *facts, cp *crashPoint, rec 
 			case ra:
 				x.r.Count("acked_recipient_reported_after", 1)
 			}
+			if sc.rewriteVictim(id) && !f.delivered[pr] && !f.reported[pr] {
+				x.r.Count("io_error_rewrite_pending_recipients_judged", 1)
+				x.r.Count("io_error_rewrite_pending_recipients_judged_"+sc.Fault.counterName(), 1)
+			}
 			if f.delivered[pr] || f.reported[pr] || da || ra {
 				continue
 			}
@@ -697,6 +705,10 @@ func (x *explorer) judge(p path, hist []histPart, f *facts, cp *crashPoint, rec 
 			if f.reportProblems+after.reportProblems > 0 {
 				c.Inconclusive(fmt.Sprintf("%s: a failure report could not be attributed, %s of %s not judged", sc.Name, r, id))
 				x.inconclusive++
+				continue
+			}
+			if sc.rewriteVictim(id) {
+				c.Violation("acked-recipient-lost/io-error-in-meta-rewrite/"+sc.Fault.opName(), fmt.Sprintf("message %s was accepted (Commit had returned); after its first attempt %s was still pending and the rewrite of the meta-data failed: %s returned %v. The queue was stopped at %s and restarted on that spool: %s has not been delivered or reported before the stop, was not delivered or reported by the restarted queue, and cannot be attempted again (%s)", id, r, sc.Fault.opName(), sc.Fault.Err, cp, r, cause), wit(map[string]any{"recipient": r, "message": id, "cause": cause, "injected_fault": sc.Fault.describe()}))
 				continue
 			}
 			c.Violation("acked-recipient-lost/"+cause+"/"+variant, fmt.Sprintf("message %s was acknowledged before the crash at %s; its recipient %s has not been delivered or reported before the crash, was not delivered or reported by the restarted queue, and cannot be attempted again (%s)", id, cp, r, cause), wit(map[string]any{"recipient": r, "message": id, "cause": cause}))
@@ -788,6 +800,12 @@ func TestVerif(t *testing.T) {
 	for k := 0; k < r.N(nFaultCases, 5*nFaultCases); k++ {
 		i := faultBase + k
 		r.Run(i, fmt.Sprintf("io-error-%d", i), func(c *rep.Case) { runFaultCase(t, r, c, i) })
+	}
+	// group G (rewrite_fault_test.go): I/O error returns in the meta-data
+	// REWRITE after the first attempt of an accepted message
+	for k := 0; k < r.N(nRewriteCases, 5*nRewriteCases); k++ {
+		i := rewriteBase + k
+		r.Run(i, fmt.Sprintf("io-error-rewrite-%d", i), func(c *rep.Case) { runRewriteFaultCase(t, r, c, i) })
 	}
 	for _, i := range indices {
 		i := i
